@@ -250,11 +250,11 @@ def form_line(covers: bool, reaction, tb, ops) -> str:
     return " ".join(toks)
 
 
-def build_with_ops(reaction, ops, pool):
+def build_with_ops(reaction, ops, pool, builder=None):
     from ampform.helicity import CanonicalAmplitudeBuilder, HelicityAmplitudeBuilder
 
     canonical = reaction.formalism in {"canonical-helicity", "canonical"}
-    b = (CanonicalAmplitudeBuilder if canonical else HelicityAmplitudeBuilder)(reaction)
+    b = builder or (CanonicalAmplitudeBuilder if canonical else HelicityAmplitudeBuilder)(reaction)
     for o in ops:
         try:
             b.dynamics.assign(o["obj"], pool[o["b"]])
@@ -298,6 +298,58 @@ def real_form(reaction, tb, ops):
         return {"calls": calls, "defaults": dict(sorted(dfl.items()))}, model
     finally:
         logging.disable(lvl)
+
+
+def _form_answer(model, log, tb) -> dict:
+    calls = count_items([call_key(k, name, v, tb) for k, name, v in log])
+    dfl = {}
+    for par, val in model.parameter_defaults.items():
+        name = getattr(par, "name", str(par))
+        if name.startswith(DYN_PREFIXES):
+            dfl[name] = bits(val)
+    return {"calls": calls, "defaults": dict(sorted(dfl.items()))}
+
+
+def real_form2(reaction, tb, ops1, ops2) -> list[dict]:
+    """assign -> formulate -> re-assign -> formulate on ONE builder: answers of both formulate() calls."""
+    log: list = []
+    pool = recording_pool(log)
+    lvl = logging.root.manager.disable
+    logging.disable(logging.WARNING)
+    out = []
+    try:
+        b = None
+        for ops in (ops1, ops2):
+            del log[:]
+            try:
+                b = build_with_ops(reaction, ops, pool, builder=b)
+                model = b.formulate()
+                out.append(_form_answer(model, log, tb))
+            except R1.ERRS as e:
+                out.append({"error": type(e).__name__})
+        return out
+    finally:
+        logging.disable(lvl)
+
+
+def forced_ops(rng, reaction, tb, which: str) -> list[dict]:
+    """Deterministic shapes that random histories hit too rarely.
+    all_parents : a marker builder on EVERY decaying particle by name (L, masses of every node incl. L = 0 vs None);
+    reassign    : by name, then ONE specific decay of that particle gets another builder (same name, same variables)."""
+    own, chain = all_decays(reaction, tb)
+    parents = sorted({d.parent.particle.name for d in own})
+    ops = []
+    if which == "all_parents":
+        for k, nm in enumerate(parents):
+            b = [4, 5, 6][k % 3]
+            ops.append({"kind": "name", "obj": nm, "b": b, "tokens": ["name", R1.enc_name(nm), str(b)], "repr": nm})
+    else:
+        nm = rng.choice(parents)
+        cands = [d for d in own if d.parent.particle.name == nm]
+        d = rng.choice(cands)
+        ops.append({"kind": "name", "obj": nm, "b": 4, "tokens": ["name", R1.enc_name(nm), "4"], "repr": nm})
+        ops.append({"kind": "decay", "obj": d, "b": 5, "tokens": ["decay", *decay_tokens(d, tb), "5"], "repr": enc_decay(d, tb)})
+    return ops
 
 
 def parse_form(line: str) -> dict:
@@ -371,7 +423,7 @@ def spec_builder(ops, decay, denote_decay_of):
     return chosen
 
 
-def oracle_ratio(reaction, tb, ops) -> list[dict]:
+def oracle_ratio(reaction, tb, ops, pre_ops=None) -> list[dict]:
     """Every chain amplitude with dynamics = the same amplitude without dynamics x product of the builders'
     marker expressions on the node's OWN variables (markers only: builder ids >= 4, or 0)."""
     import sympy as sp
@@ -383,7 +435,13 @@ def oracle_ratio(reaction, tb, ops) -> list[dict]:
     lvl = logging.root.manager.disable
     logging.disable(logging.WARNING)
     try:
-        b1 = build_with_ops(reaction, ops, pool)
+        if pre_ops:  # assign -> formulate -> re-assign -> formulate on ONE builder: judge the second model
+            b1 = build_with_ops(reaction, pre_ops, pool)
+            b1.formulate()
+            b1 = build_with_ops(reaction, ops, pool, builder=b1)
+            ops = [*pre_ops, *ops]
+        else:
+            b1 = build_with_ops(reaction, ops, pool)
         m1 = b1.formulate()
         b0 = build_with_ops(reaction, [], pool)
         m0 = b0.formulate()
